@@ -79,14 +79,19 @@ void h_run(Case &c) {
     int tc = 0; for (hwloc_topology_diff_t x = df; x; x = x->generic.next) if (x->generic.type == HWLOC_TOPOLOGY_DIFF_TOO_COMPLEX) tc++;
     CHECK(c, tc >= 1, "too_complex", "build returned 1 without a TOO_COMPLEX entry");
     char *xb = NULL; int xl = 0; errno = 0; CHECK(c, hwloc_topology_diff_export_xmlbuffer(df, "ref", &xb, &xl) == -1 && errno == EINVAL, "too_complex_export", "export of a too-complex diff was accepted");
-    hwloc_topology_diff_destroy(df); hwloc_topology_destroy(A); hwloc_topology_destroy(B); return;
+    hwloc_topology_diff_destroy(df); hwloc_topology_destroy(B); { std::string last = export_xml(A, 0); CHECK(c, last.size() > 50, "export_after_diffs", "XML export of the remaining topology failed after a refused diff export"); } hwloc_topology_destroy(A); return;
   }
   CHECK(c, r == 0, "build_representable", "only representable edits (%d) but build returned %d", nrep, r);
   CHECK(c, (dA != dB) == (df != NULL), "build_null_iff_equal", "diff is %s but the topologies %s", df ? "non-NULL" : "NULL", dA != dB ? "differ" : "are equal");
   if (!df) { hwloc_topology_destroy(A); hwloc_topology_destroy(B); return; }
   // XML round trip of the diff, refname with escapable characters; the loaded list replaces the built one
   { char *xb = NULL; int xl = 0; CHECK(c, hwloc_topology_diff_export_xmlbuffer(df, "r<e&f\"g", &xb, &xl) == 0, "diff_xml", "diff export failed");
-    hwloc_topology_diff_t d2 = NULL; char *ref = NULL; CHECK(c, hwloc_topology_diff_load_xmlbuffer(xb, xl, &d2, &ref) == 0, "diff_xml", "diff load failed");
+    hwloc_topology_diff_t d2 = NULL; char *ref = NULL; bool viafile = d.chance(1, 3);
+    if (viafile) {   // the file variants: same bytes as the buffer export, same list when loaded
+      std::string path = std::string(h_workdir()) + strf("/c16.%d.xml", (int)getpid()); CHECK(c, hwloc_topology_diff_export_xml(df, "r<e&f\"g", path.c_str()) == 0, "diff_xml", "diff file export failed errno %d", errno);
+      std::string fb; { FILE *f = fopen(path.c_str(), "rb"); char b[65536]; size_t n; while (f && (n = fread(b, 1, sizeof b, f)) > 0) fb.append(b, n); if (f) fclose(f); } CHECK(c, fb == std::string(xb, strlen(xb)), "diff_xml", "the diff file export differs from the buffer export (%zu vs %zu bytes)", fb.size(), strlen(xb));
+      int lr = hwloc_topology_diff_load_xml(path.c_str(), &d2, &ref); unlink(path.c_str()); CHECK(c, lr == 0, "diff_xml", "diff file load failed"); c.cls("diff-xml:file"); }
+    else CHECK(c, hwloc_topology_diff_load_xmlbuffer(xb, xl, &d2, &ref) == 0, "diff_xml", "diff load failed");
     CHECK(c, ref && !strcmp(ref, "r<e&f\"g"), "diff_xml", "refname %s after the round trip", ref ? ref : "(null)");
     hwloc_topology_diff_t x = df, y = d2; int n = 0;
     for (; x && y; x = x->generic.next, y = y->generic.next, n++) {
@@ -123,7 +128,9 @@ void h_run(Case &c) {
     hwloc_topology_destroy(Q); c.cls("rollback:already-applied-entry"); }
   c.descf("\n -> %d entries, rollback at N=%d (how=%d)", len, N, how);
   if (repobjs.size() >= 2 || N >= 2) c.nontrivial();
-  hwloc_topology_diff_destroy(df); hwloc_topology_destroy(P); hwloc_topology_destroy(A); hwloc_topology_destroy(B);
+  hwloc_topology_diff_destroy(df); hwloc_topology_destroy(P); hwloc_topology_destroy(B);
+  // process-wide state (component registry, XML backends) is shared by topologies and diff import/export: the last topology still exports
+  { std::string last = export_xml(A, 0); CHECK(c, last.size() > 50, "export_after_diffs", "XML export of the remaining topology failed after the diff calls"); } hwloc_topology_destroy(A);
 }
 
 bool h_named(const std::string &name, Case &c) {
